@@ -271,7 +271,7 @@ func protoOpsToMsgpackpatchOps(in []*hydrapb.PatchOp) ([]msgpackpatch.Op, error)
 			return nil, fmt.Errorf("op %d is nil", i)
 		}
 		out = append(out, msgpackpatch.Op{
-			Kind:  msgpackpatch.OpKind(op.GetOp()),
+			Kind:  msgpackpatch.OpKind(wireEnum(int32(op.GetOp()))),
 			Path:  op.GetPath(),
 			Value: op.GetValue(),
 		})
@@ -287,9 +287,21 @@ func protoCondToMsgpackpatchCond(in *hydrapb.PatchCondition) *msgpackpatch.Condi
 	}
 	return &msgpackpatch.Condition{
 		Path:      in.GetPath(),
-		Op:        msgpackpatch.CondOp(in.GetOperator()),
+		Op:        msgpackpatch.CondOp(wireEnum(int32(in.GetOperator()))),
 		Threshold: in.GetThreshold(),
 	}
+}
+
+// wireEnum narrows a proto enum number to the engine's uint8 enums. A bare
+// conversion keeps only the low 8 bits, so a number that is no operator
+// (256, 257, -255, …) would run as the operator it wraps around to; such
+// numbers become 255, which no operator uses, and the engine rejects them
+// like any other unknown value.
+func wireEnum(v int32) uint8 {
+	if v < 0 || v > 255 {
+		return 255
+	}
+	return uint8(v)
 }
 
 // protoMetaToSwampMeta converts the wire-level metadata setup to the swamp
